@@ -1,6 +1,7 @@
 /*! Window functions
 
-All functions are periodic, not symmetric.(?)
+All functions are symmetric (first and last weight are equal), which is what
+FIR filter design by windowing needs for linear phase.
 
 <https://en.wikipedia.org/wiki/Window_function>
 <https://en.wikipedia.org/wiki/Spectral_leakage>
@@ -113,7 +114,9 @@ fn blackman(m: usize) -> Window {
     let mut b = Vec::with_capacity(m);
     for n in 0..m {
         let n = n as Float;
-        let m = m as Float;
+        // Symmetric window, like `hamming()`: the last sample mirrors the
+        // first.
+        let m = (m.max(2) - 1) as Float;
 
         // Parameters.
         //
@@ -151,7 +154,8 @@ fn blackman_harris(m: usize) -> Window {
     let mut b = Vec::with_capacity(m);
     for n in 0..m {
         let n = n as Float;
-        let m = m as Float;
+        // Symmetric window, like `hamming()`.
+        let m = (m.max(2) - 1) as Float;
 
         // Formula.
         let t1 = 2.0 * PI * n / m;
